@@ -315,6 +315,10 @@ def run_model_corr(report, rng):
                     cfgmod.FLAGS = types.SimpleNamespace(**{field: fl})
                     cfg = {} if fv is None else {field: fv}
                     got = cfgmod._pop_flag(cfg, field)
+                    if not isinstance(got, int) or isinstance(got, bool):
+                        report_failure(report, f"pop_flag_{field}", dict(kind="property", case=dict(function="config._pop_flag", field=field, flag=fl, file=fv, default=dflt, impl_out=repr(got)),
+                                                                        problem="neither the flag, nor the file's value, nor the default came back"))
+                        return
                     opt = lambda v: "None" if v is None else f"(Some {zlit(v)})"
                     cases.append(f"({opt(fl)}, {opt(fv)}, {zlit(dflt)}, {zlit(got)})")
                     metas.append(dict(function="config._pop_flag", field=field, flag=fl, file=fv, default=dflt, impl_out=got, consumed_from_file=field not in cfg))
